@@ -19,6 +19,7 @@ typedef struct mu {
     volatile int susp_epoch, res_epoch;
     volatile int cb_bad;
     volatile int inflight_pool; /* target of a request call that has not returned yet, or -1 */
+    volatile int cb_last_pool;  /* pool the unit was associated with at the previous callback */
     int issuer;
 } mu;
 
@@ -44,6 +45,15 @@ static void mig_cb(ABT_thread th, void *arg)
     if (th != u->th)
         u->cb_bad = 1;
     u->cb_calls++;
+    /* exactly once per *performed* migration: every invocation must find the unit associated
+     * with another pool than at the previous invocation */
+    ABT_pool lp;
+    if (ABT_thread_get_last_pool(th, &lp) == ABT_SUCCESS) {
+        int idx = pool_index(lp);
+        if (idx == u->cb_last_pool)
+            u->cb_bad = 2;
+        u->cb_last_pool = idx;
+    }
 }
 
 static void request(mu *u, int pool, int who)
@@ -219,6 +229,7 @@ static void run_c13(void)
         u->pool0 = (int)plan_n((uint32_t)rt->npools);
         u->cur_pool = u->pool0;
         u->inflight_pool = -1;
+        u->cb_last_pool = u->pool0;
         u->nslices = plan_range(1, sim_limit("slices", 8));
         u->self_requests = plan_n(3) == 0;
         u->use_suspend = plan_n(3) == 0;
@@ -258,7 +269,8 @@ static void run_c13(void)
         ABT_OK(ABT_thread_free(&u->th));
         SIM_CHECK(u->done && u->starts == 1, "once:not-exactly-once", "unit %d: starts=%d done=%d", i, u->starts, u->done);
         if (u->with_cb) {
-            SIM_CHECK(!u->cb_bad, "migrate:callback-args", "migration callback of unit %d received a wrong handle", i);
+            SIM_CHECK(u->cb_bad != 1, "migrate:callback-args", "migration callback of unit %d received a wrong handle", i);
+            SIM_CHECK(u->cb_bad != 2, "migrate:callback-without-migration", "migration callback of unit %d ran although the unit's pool had not changed since the previous callback", i);
             SIM_CHECK(u->cb_calls >= u->moves && u->cb_calls <= u->accepted, "migrate:callback-count",
                       "unit %d: callback ran %d times for %d observed pool changes and %d accepted requests", i, u->cb_calls, u->moves, u->accepted);
         }
